@@ -66,6 +66,7 @@ type Op struct {
 	Copy   bool      `json:"copy,omitempty"`   // operate on a shallow VALUE copy of the subject (children still shared)
 	Fault  *Fault    `json:"fault,omitempty"`  // callback fault (custom driver operations only)
 	Target int       `json:"target,omitempty"` // spawn: task to start
+	Opts   int       `json:"opts,omitempty"`   // parse/topg/toparam: 0 options written out at the call; 1, 2: the call passes a caller-owned option slice (opts...), layout 1 or 2 (opts.go)
 }
 
 // SchedSpec is the scheduling and fault configuration of one run.
@@ -209,6 +210,12 @@ var fieldChoices = []string{"", "", "", "default", "dflt field", "x"}
 // genScenario draws one scenario. cold restricts the choices to those that need
 // no solo step counts and make no library call before the simulated run.
 func genScenario(r *zsimrt.Rand, run, seed uint64, cold bool, c *corpus) *Scenario {
+	sc := genScenario0(r, run, seed, cold, c)
+	assignOpts(sc)
+	return sc
+}
+
+func genScenario0(r *zsimrt.Rand, run, seed uint64, cold bool, c *corpus) *Scenario {
 	sc := &Scenario{Run: run, Seed: seed, Cold: cold}
 	sc.MapSeed = r.Uint64() | 1
 	if giantEvery > 0 && !cold && run%giantEvery == giantEvery-1 {
